@@ -55,7 +55,11 @@ func (bvl *blockCommitVoteList) VerifyBlock(block module.BlockData, validators m
 	for i, item := range bvl.Items {
 		msg.Timestamp = item.Timestamp
 		msg.setSignature(item.Signature)
-		index := validators.IndexOf(msg.address())
+		addr := msg.address()
+		if addr == nil {
+			return nil, errors.Errorf("bad signature at index %d in vote list", i)
+		}
+		index := validators.IndexOf(addr)
 		if index < 0 {
 			return nil, errors.Errorf("bad voter %v at index %d in vote list", msg.address(), i)
 		}
@@ -248,7 +252,11 @@ func (vl *CommitVoteList) toVoteList(
 	for _, item := range vl.Items {
 		msg.Timestamp = item.Timestamp
 		msg.setSignature(item.Signature)
-		vIdx := validators.IndexOf(msg.address())
+		addr := msg.address()
+		if addr == nil {
+			return nil, errors.Errorf("bad signature in vote list")
+		}
+		vIdx := validators.IndexOf(addr)
 		if vIdx < 0 {
 			return nil, errors.Errorf("not a validator address=%s", msg.address().String())
 		}
